@@ -51,6 +51,7 @@ XEvent(r) ==
     \/ /\ r.ev = "cdef" /\ Ly!CDefOK(r) /\ UNCHANGED <<gaVars, xVars>>
     \/ /\ r.ev = "zeroize" /\ Ly!ZeroizeOK(r) /\ UNCHANGED <<gaVars, xVars>>
     \/ /\ r.ev = "hex" /\ Hx!HexOK(r) /\ UNCHANGED <<gaVars, xVars>>
+    \/ /\ r.ev = "hexsink" /\ Hx!HexSinkOK(r) /\ UNCHANGED <<gaVars, xVars>>
     \/ /\ r.ev = "cmp" /\ Cp!CmpOK(r) /\ UNCHANGED <<gaVars, xVars>>
     \/ /\ r.ev = "ordcmp" /\ Cp!OrdOK(r) /\ UNCHANGED <<gaVars, xVars>>
     \/ /\ r.ev = "dbg" /\ Cp!DbgOK(r) /\ UNCHANGED <<gaVars, xVars>>
